@@ -1,7 +1,7 @@
 (* C16 -- character-level operations work on whole Unicode characters.
    GENERATED from Properties/src/C16.props by tools/mkprops.py; property theorems only. *)
 From SP Require Import Model.Impl Model.Spec.
-From SP Require Import Proofs.ImplSpec Proofs.CharOps Proofs.IdemP Proofs.RangeP.
+From SP Require Import Proofs.ImplSpec Proofs.CharOps Proofs.IdemP Proofs.PadTrimP Proofs.RangeP.
 
 (* exactly the requested width in characters, never truncating *)
 Theorem C16_pad_reaches_width :
@@ -102,6 +102,39 @@ Proof. exact pad_wide_enough. Qed.
 Check C16_pad_wide_enough :
   forall (w c : N) (d : pdir) (s : str), (w <= N.of_nat (length s))%N -> pad_str w c d s = s.
 Print Assumptions C16_pad_wide_enough.
+
+(* trimming a set that contains the pad character off a padded text gives the text
+   back, when the text neither begins nor ends with a character of the set (the side
+   condition is needed: trim_undoes_pad_needs_clean_ends) *)
+Theorem C16_trim_undoes_pad :
+  forall (f : N -> bool) (w c : N) (d : pdir) (s : str),
+  f c = true ->
+  match s with [] => True | x :: _ => f x = false end ->
+  match rev s with [] => True | x :: _ => f x = false end ->
+  trim_with f TBoth (pad_str w c d s) = s.
+Proof. exact trim_undoes_pad. Qed.
+Check C16_trim_undoes_pad :
+  forall (f : N -> bool) (w c : N) (d : pdir) (s : str),
+  f c = true ->
+  match s with [] => True | x :: _ => f x = false end ->
+  match rev s with [] => True | x :: _ => f x = false end ->
+  trim_with f TBoth (pad_str w c d s) = s.
+Print Assumptions C16_trim_undoes_pad.
+
+Theorem C16_trim_op_undoes_pad_op :
+  forall (w c : N) (d : pdir) (s : str),
+  is_ws c = false ->
+  match s with [] => True | x :: _ => N.eqb x c = false end ->
+  match rev s with [] => True | x :: _ => N.eqb x c = false end ->
+  trim_with (trim_pred [c]) TBoth (pad_str w c d s) = s.
+Proof. exact trim_op_undoes_pad_op. Qed.
+Check C16_trim_op_undoes_pad_op :
+  forall (w c : N) (d : pdir) (s : str),
+  is_ws c = false ->
+  match s with [] => True | x :: _ => N.eqb x c = false end ->
+  match rev s with [] => True | x :: _ => N.eqb x c = false end ->
+  trim_with (trim_pred [c]) TBoth (pad_str w c d s) = s.
+Print Assumptions C16_trim_op_undoes_pad_op.
 
 (* reverse and substring move whole characters: they commute with any relabelling
    of characters (e.g. swapping an ASCII letter for a 4-byte one) *)
